@@ -133,6 +133,36 @@ pub fn make_pool(c: &PoolCfg) -> Result<(Arc<dyn PoolApi>, RecvFn), String> {
     }
 }
 
+/// As `make_pool`, with a non-blocking receive: Some(Some(..)) a result, Some(None) nothing right now, None = every
+/// sender is gone.
+pub fn make_pool_try(c: &PoolCfg) -> Result<(Arc<dyn PoolApi>, TryRecvFn), String> {
+    use huginn_net_verif_rt::std::sync::mpsc;
+    fn conv<T>(r: Result<T, mpsc::TryRecvError>, f: impl Fn(&T) -> Vec<Obs>) -> Option<Option<Vec<Obs>>> {
+        match r {
+            Ok(x) => Some(Some(f(&x))),
+            Err(mpsc::TryRecvError::Empty) => Some(None),
+            Err(mpsc::TryRecvError::Disconnected) => None,
+        }
+    }
+    match c.kind {
+        PoolKind::Tcp => {
+            let (tx, rx) = mpsc::channel();
+            let p = huginn_net_tcp::WorkerPool::new(c.workers, c.queue, c.batch, c.timeout_ms, tx, if c.with_db { Some(sut::db()) } else { None }, c.cap, c.filter.as_ref().map(sut::filter_tcp)).map_err(|e| format!("{}", e))?;
+            Ok((Arc::new(TcpP(p)), Box::new(move || conv(rx.try_recv(), |r| sut::obs_tcp(r)))))
+        }
+        PoolKind::Http => {
+            let (tx, rx) = mpsc::channel();
+            let p = huginn_net_http::WorkerPool::new(c.workers, c.queue, c.batch, c.timeout_ms, tx, if c.with_db { Some(sut::db()) } else { None }, c.cap, c.filter.as_ref().map(sut::filter_http)).map_err(|e| format!("{}", e))?;
+            Ok((Arc::new(HttpP(p)), Box::new(move || conv(rx.try_recv(), |r| sut::obs_http(r)))))
+        }
+        PoolKind::Tls => {
+            let (tx, rx) = mpsc::channel();
+            let p = huginn_net_tls::WorkerPool::new(c.workers, c.queue, c.batch, c.timeout_ms, tx, c.cap, c.filter.as_ref().map(sut::filter_tls)).map_err(|e| format!("{}", e))?;
+            Ok((Arc::new(TlsP(p)), Box::new(move || conv(rx.try_recv(), |r| vec![sut::obs_tls(r)]))))
+        }
+    }
+}
+
 /// worker index the pool's own hash assigns to a frame (None = TLS pool discards it)
 pub fn worker_of(kind: PoolKind, frame: &[u8], workers: usize) -> Option<usize> {
     match kind {
@@ -182,6 +212,10 @@ pub struct ExecPlan {
     /// via_analyzer only (HTTP): after the capture was handed to the pool, the application - which holds a handle
     /// to the pool for its statistics - initialises a new pool for the next capture on the same analyzer
     pub reinit_pool: bool,
+    /// via_analyzer only: the application sets the run's cancel signal while the packet source hands over the frame
+    /// with this index (Ctrl-C during a capture): the loop stops without taking that frame; everything it took
+    /// before must still be analysed
+    pub cancel_after: Option<usize>,
 }
 
 /// The body of one scheduled execution.
@@ -312,7 +346,19 @@ pub fn exec_via_analyzer(plan: &ExecPlan) -> Result<ExecOut, String> {
             }
             a.init_pool(tx.clone()).map_err(|e| format!("{}", e))?;
             let mut it = frames.into_iter();
-            a.verif_process_with(move || it.next().map(Ok), tx, None).map_err(|e| format!("{}", e))?;
+            let cancel = plan.cancel_after.map(|_| Arc::new(huginn_net_verif_rt::std::sync::atomic::AtomicBool::new(false)));
+            let (c2, at) = (cancel.clone(), plan.cancel_after);
+            let mut handed = 0usize;
+            let src = move || {
+                if let (Some(c), Some(k)) = (&c2, at) {
+                    if handed == k {
+                        c.store(true, std::sync::atomic::Ordering::SeqCst);
+                    }
+                }
+                handed += 1;
+                it.next().map(Ok)
+            };
+            a.verif_process_with(src, tx, cancel).map_err(|e| format!("{}", e))?;
             if let Some(s) = a.stats() {
                 out.stats_after = StatsSnap { dispatched: s.total_dispatched, dropped: s.total_dropped, workers: s.workers.iter().map(|w| (w.queue_size, w.dropped)).collect() };
             }
@@ -330,7 +376,19 @@ pub fn exec_via_analyzer(plan: &ExecPlan) -> Result<ExecOut, String> {
             a.init_pool(tx.clone()).map_err(|e| format!("{}", e))?;
             let monitor = if plan.reinit_pool { a.worker_pool().cloned() } else { None };
             let mut it = frames.into_iter();
-            a.verif_process_with(move || it.next().map(Ok), tx, None).map_err(|e| format!("{}", e))?;
+            let cancel = plan.cancel_after.map(|_| Arc::new(huginn_net_verif_rt::std::sync::atomic::AtomicBool::new(false)));
+            let (c2, at) = (cancel.clone(), plan.cancel_after);
+            let mut handed = 0usize;
+            let src = move || {
+                if let (Some(c), Some(k)) = (&c2, at) {
+                    if handed == k {
+                        c.store(true, std::sync::atomic::Ordering::SeqCst);
+                    }
+                }
+                handed += 1;
+                it.next().map(Ok)
+            };
+            a.verif_process_with(src, tx, cancel).map_err(|e| format!("{}", e))?;
             if let Some(s) = a.stats() {
                 out.stats_after = StatsSnap { dispatched: s.total_dispatched, dropped: s.total_dropped, workers: s.workers.iter().map(|w| (w.queue_size, w.dropped)).collect() };
             }
@@ -356,7 +414,19 @@ pub fn exec_via_analyzer(plan: &ExecPlan) -> Result<ExecOut, String> {
                 a = a.with_filter(sut::filter_tls(f));
             }
             let mut it = frames.into_iter();
-            a.verif_process_with(move || it.next().map(Ok), tx, None).map_err(|e| format!("{}", e))?;
+            let cancel = plan.cancel_after.map(|_| Arc::new(huginn_net_verif_rt::std::sync::atomic::AtomicBool::new(false)));
+            let (c2, at) = (cancel.clone(), plan.cancel_after);
+            let mut handed = 0usize;
+            let src = move || {
+                if let (Some(c), Some(k)) = (&c2, at) {
+                    if handed == k {
+                        c.store(true, std::sync::atomic::Ordering::SeqCst);
+                    }
+                }
+                handed += 1;
+                it.next().map(Ok)
+            };
+            a.verif_process_with(src, tx, cancel).map_err(|e| format!("{}", e))?;
             drop(a);
             while let Ok(r) = rx.recv() {
                 out.results.push(vec![sut::obs_tls(&r)]);
